@@ -245,7 +245,11 @@ func (c *c02scen) write(i, tag int) ([]string, error) {
 }
 
 // restart closes replica i and reopens it from its directory: Open + Load(-1).
-func (c *c02scen) restart(i int) error {
+func (c *c02scen) restart(i int) error { return c.reopen(i, true) }
+
+// reopen: as restart; with load = false the reopened store is NOT loaded yet (its log is empty,
+// its cached heads are on disk): the caller loads it later.
+func (c *c02scen) reopen(i int, load bool) error {
 	ctx := context.Background()
 	s := c.s
 	if c.r.Rng.Intn(3) == 0 {
@@ -258,8 +262,10 @@ func (c *c02scen) restart(i int) error {
 		if err != nil {
 			return fmt.Errorf("reopen on the same instance: %w", err)
 		}
-		if err := st2.Load(ctx, -1); err != nil {
-			return fmt.Errorf("load: %w", err)
+		if load {
+			if err := st2.Load(ctx, -1); err != nil {
+				return fmt.Errorf("load: %w", err)
+			}
 		}
 		s.Stores[i] = st2
 		delete(c.lastH, i)
@@ -275,8 +281,10 @@ func (c *c02scen) restart(i int) error {
 	if err != nil {
 		return fmt.Errorf("reopen: %w", err)
 	}
-	if err := st2.Load(ctx, -1); err != nil {
-		return fmt.Errorf("load: %w", err)
+	if load {
+		if err := st2.Load(ctx, -1); err != nil {
+			return fmt.Errorf("load: %w", err)
+		}
 	}
 	s.Reps[i], s.Stores[i] = rep, st2
 	delete(c.lastH, i)
@@ -288,6 +296,22 @@ func (c *c02scen) restart(i int) error {
 func (c *c02scen) final() {
 	ctx := context.Background()
 	s, net, n := c.s, c.s.Env.Net, c.n
+	// in every third random scenario one replica is closed and reopened before the links are
+	// healed and loads its database only AFTER everybody has seen everybody join and all the
+	// traffic has been delivered: the heads it offers to the peers that join are those of its
+	// cache, whatever its log holds at that moment, and no later join repeats the exchange
+	late := -1
+	if c.kind == "random" && c.si%3 == 1 {
+		late = c.r.Rng.Intn(n)
+		c.settle("pre-late-restart")
+		if err := c.reopen(late, false); err != nil {
+			c.r.AddDirect("late-load:reopen", err.Error(), map[string]interface{}{"scen": c.si, "replica": late})
+			late = -1
+		} else {
+			c.trace("replica %d reopened, not loaded yet", late)
+			c.r.Count("final:late-load")
+		}
+	}
 	for a := 0; a < n; a++ {
 		for b := a + 1; b < n; b++ {
 			net.Cut(c.idx(a), c.idx(b)) // make sure the heal is observed as a (re)join by both sides
@@ -310,6 +334,22 @@ func (c *c02scen) final() {
 		}
 	}
 	c.settle("final")
+	if late >= 0 {
+		if err := s.Stores[late].Load(ctx, -1); err != nil {
+			c.r.AddDirect("late-load:load", err.Error(), map[string]interface{}{"scen": c.si, "replica": late})
+		}
+		for round := 0; round < 50; round++ {
+			c.settle("final-late-load")
+			if net.PendingLen() == 0 {
+				break
+			}
+			for net.PendingLen() > 0 {
+				net.DeliverPending(0, false)
+			}
+		}
+		c.settle("final-late-load")
+		c.trace("late load of %d -> %v", late, c.lens())
+	}
 	c.trace("end -> %v state %s", c.lens(), sim.LastSettleState)
 	if os.Getenv("VERIF_TRACE") != "" {
 		for i, st := range s.Stores {
